@@ -1,11 +1,13 @@
 //! mjv — bounded-exhaustive checks for the minijinja properties C01..C20.
 mod core;
 mod big;
+mod c04;
 mod c07;
 mod c08;
 mod vals;
 mod c09;
 mod c10;
+mod c17;
 mod gen;
 
 fn main() {
@@ -16,10 +18,12 @@ fn main() {
     }
     let args = core::parse_args(&argv[2..]);
     let code = match argv[1].to_ascii_lowercase().as_str() {
+        "c04" => c04::main(args),
         "c07" => c07::main(args),
         "c08" => c08::main(args),
         "c09" => c09::main(args),
         "c10" => c10::main(args),
+        "c17" => c17::main(args),
         "gensizes" => {
             print_gen_sizes();
             0
